@@ -57,6 +57,20 @@ func genC02(seed int64, tier string) *Scenario {
 		}
 	}
 	sc.Actors = append(sc.Actors, op)
+	if rng.Intn(3) == 0 {
+		// the goroutine that completes a probe of a new target is descheduled
+		// somewhere between the answer and the rotation update, until the deploy
+		// has moved on
+		g := 1 + rng.Intn(gens-1)
+		at := pick(rng, "hc.report", "health.completed", "health.updated", "health.updated", "lb.stateChanged", "lb.stateChanged")
+		until := pick(rng, "lb.waitDone", "deploy.healthy", "router.install", "router.install", "deploy.beforeDrain", "deploy.done")
+		max := time.Duration(20+rng.Intn(600)) * time.Millisecond
+		for _, t := range sc.Targets {
+			if strings.HasPrefix(t.Addr, fmt.Sprintf("g%dt", g)) {
+				sc.TaskHolds = append(sc.TaskHolds, TaskHold{Task: "hc:" + t.Addr, Hold: Hold{At: at, For: until, N: 1, Max: max}})
+			}
+		}
+	}
 	nc := 2 + rng.Intn(7)
 	for c := 0; c < nc; c++ {
 		a := ActorSpec{Name: fmt.Sprintf("client%d", c)}
